@@ -89,7 +89,19 @@ CLAIMS.update({
             "unique_nodes on/off and add_root/add_self on/off; TLC compares them with ExportNodeKeys/ExportEdges "
             "(bags for DOT/Mermaid, sets for RDF).", "5 C17"),
 })
+CLAIMS.update({
+    "C18": ("TLC checks the lock protocol (spec/NutreeLock.tla: writers with two-step critical sections and a nested "
+            "re-entrant snapshot, readers as Start.TryAcquire.Acquire.Read.Read.Release.End) over all interleavings: "
+            "NoForeignRead, SnapshotCommitted, NestedSeesOwn, deadlock freedom, termination under weak fairness; a variant "
+            "with an unlocked reader must be rejected (non-vacuity). Every complete schedule printed by TLC is forced on "
+            "real threads for each snapshot operation (save to stream/path, copy, copy(predicate), filtered, copy_to, "
+            "to_dict_list, to_dotfile, with tree) by a cooperative scheduler around a delegating wrapper of the tree's "
+            "own lock; free-running multi-thread runs are recorded as well; TLC (spec/TraceLock.tla) validates every "
+            "event trace and the version each snapshot shows.", "5 C18"),
+})
 QUERY = {"C17", "C05", "C06", "C08", "C09", "C10", "C12", "C14", "C15", "C16"}
+LOCK_NOTE = ("Trusted base: TLC; CPython threading; the delegating lock wrapper and cooperative scheduler of "
+             "harness/lock.py. Reads are observed through user callbacks and snapshot content, not through source hooks.")
 TECHNIQUE = "TLA+ spec + TLC model checking; spec->code transition replay and code->spec trace validation by TLC"
 
 
@@ -104,7 +116,7 @@ def main():
             "replay_cmd_template": f"./check {pid} --replay {{path}}",
             "engine": "tlc-conformance",
             "level_claimed": {"category": "model_checking", "text": text, "design_ref": f"DESIGN.md section {ref}"},
-            "level_note": QUERY_NOTE if pid in QUERY else CORE_NOTE,
+            "level_note": LOCK_NOTE if pid == "C18" else QUERY_NOTE if pid in QUERY else CORE_NOTE,
             "technique": TECHNIQUE,
         })
     claimed = set(CLAIMS)
